@@ -25,7 +25,8 @@ RULE = ("each case is a seeded history on the harness VM with 1-3 real miners cr
         "cases 0-4 of every run are the directed scenarios f2, f1 (unpadded pledge total), stale-period-start, early-termination "
         "drain (addressed_sectors_max and fault_max_age lowered in v.policy), idle; one model step per message and per tick "
         "(idle stretches run-length encoded in the case file and expanded inside Coq, every tick still compared); "
-        "distinct by hash; non-trivial = at least one accepted user message and one successful proving-deadline callback")
+        "distinct by hash; non-trivial = at least one accepted user message and one successful proving-deadline callback; "
+        "`steps` counts run-length items, stats.extra.model_steps_compared is the number of model steps compared (one per message and per tick)")
 MAY_NEVER_ACCEPT = []
 TRUSTED_BASE = TRUSTED_BASE_COMMON + [
     "C05 model coq/Model/Cron.v: hand-written transcription of actors/cron/src/lib.rs (epoch_tick), actors/power/src/{lib,state}.rs "
